@@ -1,8 +1,343 @@
-// Driver for C02 (beacon DKG: key shares are consistent with the group public key).  Same runs
-// as C01 (engine in cmd/c01/gjkrdrv); the cases are judged by Model/C02's judge, whose spec_ok is
-// share*G2 = public key share and (t+1)-subset interpolation.
+// Driver for C02 (beacon DKG: honest key shares are consistent with the group public key).
+//
+// The runs are complete 12-phase executions of REAL pkg/beacon/gjkr members under a scripted
+// adversary, performed by the engine shared with C01 (verifharness/cmd/c01/gjkrdrv.Execute): it
+// returns the run as a Coq term of Model/C01's [case] type whose observable part carries, for every
+// honest member that finished, Result.GroupPrivateKeyShare, the group public key and
+// Result.GroupPublicKeyShares() — each G2 point replaced by a discrete logarithm d that the engine
+// certified with the bn256 library itself (d*G2 == point), or None when no candidate matched.
+// Model/C02's judge evaluates the property on these observables (share_i = certified logarithm of
+// the public key share every other honest member holds for i; every (t+1)-subset of the honest
+// shares interpolates at 0 to the certified logarithm of the group key) and compares them with the
+// model's own run.
+//
+// This file owns the C02 corpus and generator: runs are weighted towards QUAL != everyone
+// (members inactive or disqualified before phase 6) and towards reconstruction of a qualified
+// member's key in phases 10-12 (silent or disqualified from phase 7 on), composed with faulty
+// reveal messages, duplicates and arrival-order shuffles.
 package main
 
-import "verifharness/cmd/c01/gjkrdrv"
+import (
+	"bytes"
+	"encoding/json"
+	"flag"
+	"fmt"
+	"os"
+	"os/exec"
+	"runtime"
+	"sort"
+	"strings"
+	"sync"
 
-func main() { gjkrdrv.Main() }
+	"verifharness/cmd/c01/gjkrdrv"
+	"verifharness/lib"
+)
+
+type (
+	RunDesc = gjkrdrv.RunDesc
+	Attack  = gjkrdrv.Attack
+)
+
+func ops(n int) []uint64 {
+	o := make([]uint64, n)
+	for i := range o {
+		o[i] = uint64(i + 1)
+	}
+	return o
+}
+
+// corpus: minimised regression runs for the mechanisms the property is anchored in.
+func corpus() []RunDesc {
+	a := func(name string, phase, by, target, k int) Attack {
+		return Attack{Name: name, Phase: phase, By: by, Target: target, K: k}
+	}
+	return []RunDesc{
+		// everyone honest: QUAL = everyone, no reconstruction
+		{ID: "c02-honest-3-1", N: 3, T: 1, Ops: ops(3), OrderSeed: 21, Shuffle: true},
+		{ID: "c02-honest-5-2", N: 5, T: 2, Ops: ops(5), OrderSeed: 22, Shuffle: true},
+		{ID: "c02-honest-6-2", N: 6, T: 2, Ops: ops(6), OrderSeed: 23, Shuffle: true},
+		// QUAL != everyone: inactive from the start / from phase 3; disqualified in phase 4/5
+		{ID: "c02-inactive-phase1", N: 5, T: 2, Corrupt: []int{2}, Ops: ops(5), OrderSeed: 24, Shuffle: true,
+			Attacks: []Attack{a("silent-from", 1, 2, 0, 0)}},
+		{ID: "c02-inactive-phase3", N: 5, T: 2, Corrupt: []int{4}, Ops: ops(5), OrderSeed: 25, Shuffle: true,
+			Attacks: []Attack{a("silent-from", 3, 4, 0, 0)}},
+		{ID: "c02-bad-share-disqualified", N: 5, T: 2, Corrupt: []int{3}, Ops: ops(5), OrderSeed: 26, Shuffle: true,
+			Attacks: []Attack{a("sh-wrong-value", 3, 3, 1, 0)}},
+		{ID: "c02-short-commitments", N: 4, T: 1, Corrupt: []int{1}, Ops: ops(4), OrderSeed: 27, Shuffle: true,
+			Attacks: []Attack{a("cm-short", 3, 1, 0, 0)}},
+		{ID: "c02-false-accuser-disqualified", N: 5, T: 2, Corrupt: []int{5}, Ops: ops(5), OrderSeed: 28, Shuffle: true,
+			Attacks: []Attack{a("acc-false", 4, 5, 2, 0)}},
+		// reconstruction (phases 10-12): a qualified member is silent from phase 7 / publishes bad points
+		{ID: "c02-reconstruct-silent7", N: 5, T: 2, Corrupt: []int{4}, Ops: ops(5), OrderSeed: 29, Shuffle: true,
+			Attacks: []Attack{a("silent-from", 7, 4, 0, 0)}},
+		{ID: "c02-reconstruct-silent7-n3", N: 3, T: 1, Corrupt: []int{1}, Ops: ops(3), OrderSeed: 30, Shuffle: true,
+			Attacks: []Attack{a("silent-from", 7, 1, 0, 0)}},
+		{ID: "c02-reconstruct-bad-points", N: 5, T: 2, Corrupt: []int{2}, Ops: ops(5), OrderSeed: 31, Shuffle: true,
+			Attacks: []Attack{a("pts-mutate", 7, 2, 0, 1)}},
+		{ID: "c02-reconstruct-short-points", N: 6, T: 2, Corrupt: []int{6}, Ops: ops(6), OrderSeed: 32, Shuffle: true,
+			Attacks: []Attack{a("pts-short", 7, 6, 0, 0)}},
+		// two reconstructed members
+		{ID: "c02-reconstruct-two", N: 5, T: 2, Corrupt: []int{1, 5}, Ops: ops(5), OrderSeed: 33, Shuffle: true,
+			Attacks: []Attack{a("silent-from", 7, 1, 0, 0), a("pts-mutate", 7, 5, 0, 0)}},
+		// reconstruction while another corrupt seat sends a faulty reveal (fewer revealed shares)
+		{ID: "c02-reconstruct-reveal-omit", N: 5, T: 2, Corrupt: []int{2, 4}, Ops: ops(5), OrderSeed: 34, Shuffle: true,
+			Attacks: []Attack{a("silent-from", 7, 2, 0, 0), a("rev-omit", 10, 4, 0, 0)}},
+		{ID: "c02-reconstruct-reveal-bad-key", N: 7, T: 3, Corrupt: []int{3, 6}, Ops: ops(7), OrderSeed: 35, Shuffle: true,
+			Attacks: []Attack{a("silent-from", 7, 3, 0, 0), a("rev-bad-key", 10, 6, 0, 0)}},
+		{ID: "c02-reconstruct-reveal-silent", N: 5, T: 2, Corrupt: []int{2, 4}, Ops: ops(5), OrderSeed: 36, Shuffle: true,
+			Attacks: []Attack{a("silent-from", 7, 2, 0, 0), a("silent-from", 10, 4, 0, 0)}},
+		// QUAL != everyone AND reconstruction
+		{ID: "c02-inactive1-and-reconstruct", N: 5, T: 2, Corrupt: []int{1, 3}, Ops: ops(5), OrderSeed: 37, Shuffle: true,
+			Attacks: []Attack{a("silent-from", 1, 1, 0, 0), a("silent-from", 7, 3, 0, 0)}},
+		{ID: "c02-disqualified4-and-reconstruct", N: 7, T: 3, Corrupt: []int{2, 5, 7}, Ops: ops(7), OrderSeed: 38, Shuffle: true,
+			Attacks: []Attack{a("sh-garbage", 3, 2, 1, 0), a("pts-long", 7, 5, 0, 0), a("dup", 10, 7, 0, 0)}},
+		// a point accuser that is wrong: disqualified in phase 9, its points stay valid (no reconstruction)
+		{ID: "c02-false-point-accuser", N: 5, T: 2, Corrupt: []int{3}, Ops: ops(5), OrderSeed: 39, Shuffle: true,
+			Attacks: []Attack{a("acc-false", 8, 3, 1, 0)}},
+		// late crashes: the member is in QUAL with valid points, only inactive
+		{ID: "c02-inactive-phase8", N: 5, T: 2, Corrupt: []int{5}, Ops: ops(5), OrderSeed: 40, Shuffle: true,
+			Attacks: []Attack{a("silent-from", 8, 5, 0, 0)}},
+		{ID: "c02-inactive-phase10", N: 4, T: 1, Corrupt: []int{3}, Ops: ops(4), OrderSeed: 41, Shuffle: true,
+			Attacks: []Attack{a("silent-from", 10, 3, 0, 0)}},
+		// known defect C01-a (DESIGN section 7): agreement fails, the run is outside C02's premise and
+		// must be judged Agree (spec_ok = true by in_scope = false)
+		{ID: "c02-out-of-scope-C01a", N: 5, T: 2, Corrupt: []int{1}, Ops: ops(5), OrderSeed: 13,
+			Attacks: []Attack{{Name: "points-poly-offset", Phase: 7, By: 1, Val: 7, Set: []int{2, 3}}}},
+	}
+}
+
+// families that take a qualified member out after phase 6 (its key is reconstructed) ...
+var reconstructing = []string{"silent-from", "drop", "pts-short", "pts-long", "pts-mutate", "wrong-session"}
+
+// ... that shrink QUAL (phases 1-5) ...
+var shrinking = []struct {
+	name  string
+	phase int
+}{{"silent-from", 1}, {"silent-from", 3}, {"drop", 1}, {"drop", 3}, {"eph-omit", 1}, {"drop-shares", 3},
+	{"drop-commits", 3}, {"sh-omit", 3}, {"sh-garbage", 3}, {"sh-wrong-value", 3}, {"sh-wrong-key", 3},
+	{"cm-short", 3}, {"cm-long", 3}, {"cm-mutate", 3}, {"acc-false", 4}, {"acc-bad-key", 4}, {"silent-from", 4}}
+
+// ... and that disturb the reveal / reconstruction phases
+var revealing = []string{"rev-omit", "rev-extra", "rev-bad-key", "rev-self", "rev-range", "rev-none", "dup",
+	"foreign-index", "drop", "silent-from", "wrong-session"}
+
+// focusedRun draws a run aimed at this property: up to t corrupt seats; the first reconstructs
+// (when the plan says so), the others shrink QUAL or disturb the reveal phase.
+func focusedRun(r *lib.Rng, id string, maxN int) RunDesc {
+	n := r.Range(3, maxN)
+	t := (n - 1) / 2
+	if t > 1 && r.Chance(1, 5) {
+		t = r.Range(1, t)
+	}
+	nc := r.Range(1, t)
+	perm := r.Perm(n)
+	var corrupt, honest []int
+	for i, p := range perm {
+		if i < nc {
+			corrupt = append(corrupt, p+1)
+		} else {
+			honest = append(honest, p+1)
+		}
+	}
+	sort.Ints(honest)
+	d := RunDesc{ID: id, N: n, T: t, Ops: ops(n), OrderSeed: r.U64() % 1000000, Shuffle: !r.Chance(1, 10)}
+	tgt := func() int { return honest[r.Intn(len(honest))] }
+	plan := r.Intn(10) // 0-5 reconstruct, 6-8 shrink only, 9 late crash
+	for i, c := range corrupt {
+		switch {
+		case i == 0 && plan <= 5:
+			nm := reconstructing[r.Intn(len(reconstructing))]
+			d.Attacks = append(d.Attacks, Attack{Name: nm, Phase: 7, By: c, Target: tgt(), K: r.Intn(4)})
+		case i == 0 && plan == 9:
+			d.Attacks = append(d.Attacks, Attack{Name: "silent-from", Phase: []int{8, 10}[r.Intn(2)], By: c})
+		case i == 0 || r.Chance(1, 2):
+			s := shrinking[r.Intn(len(shrinking))]
+			d.Attacks = append(d.Attacks, Attack{Name: s.name, Phase: s.phase, By: c, Target: tgt(), K: r.Intn(4), Val: int64(r.Intn(5))})
+		default:
+			nm := revealing[r.Intn(len(revealing))]
+			d.Attacks = append(d.Attacks, Attack{Name: nm, Phase: 10, By: c, Target: tgt(), K: r.Intn(4)})
+		}
+	}
+	sort.Ints(corrupt)
+	d.Corrupt = corrupt
+	return d
+}
+
+// ---------------------------------------------------------------- running
+
+// every run is executed in a child process: ComputeGroupPublicKeyShares works in a goroutine of
+// the implementation, a panic there cannot be recovered in-process.
+func runAll(self string, descs []RunDesc) []lib.Case {
+	out := make([]lib.Case, len(descs))
+	jobs := make(chan int)
+	var wg sync.WaitGroup
+	workers := runtime.NumCPU()
+	if workers > 16 {
+		workers = 16
+	}
+	for w := 0; w < workers; w++ {
+		wg.Add(1)
+		go func() {
+			defer wg.Done()
+			for i := range jobs {
+				in, _ := json.Marshal(descs[i])
+				cmd := exec.Command(self, "--child")
+				cmd.Stdin = bytes.NewReader(in)
+				var stderr bytes.Buffer
+				cmd.Stderr = &stderr
+				b, err := cmd.Output()
+				var c lib.Case
+				if err == nil {
+					err = json.Unmarshal(b, &c)
+				}
+				if err != nil {
+					tail := stderr.String()
+					if len(tail) > 600 {
+						tail = tail[:600]
+					}
+					c = lib.Case{ID: descs[i].ID, Coq: "DRIVER_ERROR", Out: "child crashed: " + tail}
+				}
+				out[i] = c
+			}
+		}()
+	}
+	for i := range descs {
+		jobs <- i
+	}
+	close(jobs)
+	wg.Wait()
+	return out
+}
+
+type memberOut struct {
+	ID        int               `json:"id"`
+	Finished  bool              `json:"finished"`
+	IA        []int             `json:"ia"`
+	DQ        []int             `json:"dq"`
+	KeyOK     bool              `json:"key_dlog_certified"`
+	PubShares map[string]string `json:"pubshares_ok"`
+}
+
+func emit(em *lib.Emitter, d RunDesc, c lib.Case) {
+	if c.Coq == "DRIVER_ERROR" {
+		em.Tally("driver-error")
+		fmt.Fprintf(os.Stderr, "driver error in %s: %v\n", d.ID, c.Out)
+		return
+	}
+	// the Out of the shared engine: {"members": [...], "notes": [...]}
+	var o struct {
+		Members []memberOut `json:"members"`
+	}
+	b, _ := json.Marshal(c.Out)
+	json.Unmarshal(b, &o)
+	fin, marked := 0, map[int]bool{}
+	for _, m := range o.Members {
+		if !m.Finished {
+			continue
+		}
+		fin++
+		for _, x := range m.IA {
+			marked[x] = true
+		}
+		for _, x := range m.DQ {
+			marked[x] = true
+		}
+	}
+	var names []string
+	recon, shrink := false, false
+	for _, a := range d.Attacks {
+		names = append(names, fmt.Sprintf("%s@%d", a.Name, a.Phase))
+		if marked[a.By] {
+			if a.Phase == 7 {
+				recon = true
+			}
+			if a.Phase <= 4 {
+				shrink = true
+			}
+		}
+	}
+	em.Tally(fmt.Sprintf("n=%d,t=%d", d.N, d.T))
+	em.Tally(fmt.Sprintf("corrupt=%d", len(d.Corrupt)))
+	em.Tally(fmt.Sprintf("honest-finished>=t+1:%v", fin >= d.T+1))
+	em.Tally(fmt.Sprintf("marked-members=%d", len(marked)))
+	for _, a := range d.Attacks {
+		em.Tally(fmt.Sprintf("deviation:%s@%d", a.Name, a.Phase))
+	}
+	if recon {
+		em.Tally("class:qualified-member-marked-from-phase-7(reconstruction)")
+	}
+	if shrink {
+		em.Tally("class:member-marked-before-phase-6(QUAL-shrinks)")
+	}
+	if len(marked) == 0 {
+		em.Tally("class:QUAL=everyone")
+	}
+	c.Nontrivial = fin >= d.T+1 && len(marked) > 0
+	c.Sig = map[string]interface{}{"attack": strings.Join(names, "+"), "corrupt": len(d.Corrupt),
+		"n": d.N, "t": d.T, "reconstruction": recon, "qual_shrinks": shrink}
+	em.Case(c)
+}
+
+const rule = "a case is one complete 12-phase run of real gjkr members (n, t, corrupt seats, scripted deviations, " +
+	"per-member arrival orders); distinct by that tuple; non-trivial when at least t+1 honest members finished " +
+	"(so that shares are interpolated) and at least one member was marked inactive or disqualified by them " +
+	"(QUAL differs from the whole group and/or a key was reconstructed)"
+
+func main() {
+	child := flag.Bool("child", false, "run one description from stdin (internal)")
+	o := lib.ParseOpts()
+	if *child {
+		var d RunDesc
+		if err := json.NewDecoder(os.Stdin).Decode(&d); err != nil {
+			fmt.Fprintln(os.Stderr, err)
+			os.Exit(2)
+		}
+		c := gjkrdrv.Execute(d)
+		c.Kind = "case"
+		b, _ := json.Marshal(c)
+		os.Stdout.Write(b)
+		return
+	}
+	self, err := os.Executable()
+	if err != nil {
+		panic(err)
+	}
+	em := lib.NewEmitter()
+	var descs []RunDesc
+	if o.Replay != "" {
+		var d RunDesc
+		if err := lib.LoadReplay(o.Replay, &d); err != nil {
+			fmt.Fprintln(os.Stderr, err)
+			os.Exit(2)
+		}
+		d.ID = "replay"
+		descs = []RunDesc{d}
+	} else {
+		rng := lib.NewRng(o.Seed)
+		descs = corpus()
+		nRand := o.Count(26, 400)
+		maxN := 6
+		if o.Tier != "quick" {
+			maxN = 9
+		}
+		for i := 0; i < nRand; i++ {
+			id := fmt.Sprintf("rand-%d", i)
+			if i%3 == 2 {
+				// the C01 generator: every deviation family, 1-3 composed (the families of the known
+				// agreement defect only every 9th run)
+				descs = append(descs, gjkrdrv.RandomRun(rng.Fork("c01-"+id), id, maxN, i%9 == 8))
+			} else {
+				descs = append(descs, focusedRun(rng.Fork("c02-"+id), id, maxN))
+			}
+		}
+	}
+	cases := runAll(self, descs)
+	for i, c := range cases {
+		emit(em, descs[i], c)
+	}
+	if o.Replay != "" {
+		em.Close("replay", nil)
+		return
+	}
+	em.Close(rule, nil)
+}
